@@ -1,10 +1,10 @@
 """Deterministic, lock-aware, line-level thread scheduler for the real `Pose.read` (C18).
 
-Each worker runs under `sys.settrace`; every `line` event inside the files that touch the process-global header cache is a yield point:
-the worker reports where it is and blocks until the scheduler lets it take the next step, so exactly one thread advances at a time and the
-interleaving is the one the schedule prescribes. Locks found in the scanned modules are replaced by cooperative re-entrant locks whose failed
+Each worker runs under `sys.settrace`; every `line` event inside the traced files is a possible preemption point: the worker counts its lines
+against the budget the scheduler granted and stops when it is used up, so exactly one thread advances at a time and the interleaving is the one
+the schedule prescribes. Locks found in the scanned modules are replaced by cooperative re-entrant locks whose failed
 acquire yields to the scheduler (a blocking acquire under a one-thread-at-a-time scheduler would deadlock)."""
-import sys, threading
+import sys, threading, _thread
 
 CUR = threading.local()
 
@@ -21,6 +21,8 @@ class SchedLock:
                 self.owner = tid
                 self.count += 1
                 return True
+            if not blocking:
+                return False                       # a try-lock fails at once, as threading.Lock's does
             if s is None:
                 raise RuntimeError("lock held outside the scheduler")
             s.yield_point(tid, ("<blocked>", 0), blocked=True)
@@ -53,32 +55,62 @@ def instrument_locks(modules):
 
 
 class Sched:
+    """One thread advances at a time. The scheduler grants a thread a BUDGET of line events (a schedule segment); the thread counts its own lines and
+    hands control back only when the budget is used up, when it has to wait for a lock, or when it finishes — a handful of hand-overs per schedule
+    instead of one per source line."""
+
     def __init__(self, n, files):
         self.n = n
         self.files = files
-        self.sem = [threading.Semaphore(0) for _ in range(n)]
-        self.arrived = threading.Semaphore(0)
+        # hand-over by raw locks used as binary semaphores: `sem[t]` lets thread t run, `arrived[t]` tells the scheduler that thread t has stopped
+        # (budget used up, waiting for a lock, or finished)
+        self.sem = [_thread.allocate_lock() for _ in range(n)]
+        self.arrived = [_thread.allocate_lock() for _ in range(n)]
+        for l in self.sem + self.arrived:
+            l.acquire()
         self.done = [False] * n
         self.at = [None] * n
         self.blocked = [False] * n
+        self.budget = [0] * n               # line events thread t may still execute before handing over (None = as many as it takes)
+        self.trace = []                     # (thread, line) in the order the lines were executed
 
     def yield_point(self, tid, where, blocked=False):
+        """called by thread `tid` before it executes source line `where` (or, `blocked`, when it cannot get a lock)"""
+        if not blocked:
+            b = self.budget[tid]
+            if b is None or b > 0:
+                if b is not None:
+                    self.budget[tid] = b - 1
+                self.trace.append((tid, where))
+                return
         self.at[tid] = where
         self.blocked[tid] = blocked
-        self.arrived.release()
+        self.arrived[tid].release()
         self.sem[tid].acquire()
+        if not blocked:                      # resumed with a fresh budget (≥ 1): this line is its first step
+            b = self.budget[tid]
+            if b is not None:
+                self.budget[tid] = b - 1
+            self.trace.append((tid, where))
 
     def make_trace(self, tid):
         files = self.files
         def local(frame, event, arg):
             if event == "line" and frame.f_code.co_filename in files:
-                self.yield_point(tid, (frame.f_code.co_name, frame.f_lineno))
+                self.yield_point(tid, (frame.f_code.co_name, frame.f_lineno, frame.f_code.co_filename.rsplit("/", 1)[-1]))
             return local
         return lambda frame, event, arg: local if frame.f_code.co_filename in files else None
 
+    def grant(self, tid, b):
+        self.budget[tid] = b
+        self.blocked[tid] = False
+        self.sem[tid].release()
+        self.arrived[tid].acquire()
+
     def run(self, fns, schedule):
         """schedule: list of (thread id, steps) segments — `steps = None` means "until that thread finishes"; after the schedule is exhausted the
-        lowest unfinished thread runs. Returns (results, trace)."""
+        lowest unfinished thread runs. A thread that waits for a lock lets the other threads advance line by line until it gets it.
+        Returns (results, trace)."""
         n = self.n
         res = [None] * n
         def worker(tid):
@@ -91,34 +123,40 @@ class Sched:
             finally:
                 sys.settrace(None)
                 self.done[tid] = True
-                self.arrived.release()
+                self.arrived[tid].release()
         ths = [threading.Thread(target=worker, args=(i,), daemon=True) for i in range(n)]
         for t in ths:
             t.start()
-        for _ in range(n):
-            self.arrived.acquire()
-        trace, spins = [], 0
+        for k in range(n):
+            self.arrived[k].acquire()
+        spins = 0
         segs = [[t, k] for t, k in schedule]
         while not all(self.done):
             while segs and (self.done[segs[0][0]] or segs[0][1] == 0):
                 segs.pop(0)
             if segs:
-                tid = segs[0][0]
-                if segs[0][1] is not None:
-                    segs[0][1] -= 1
+                seg = segs[0]
+                tid, k = seg
             else:
-                tid = next(k for k in range(n) if not self.done[k])
-            if self.blocked[tid]:
-                alt = [k for k in range(n) if not self.done[k] and not self.blocked[k]]
-                if alt:
-                    tid = alt[0]
-                else:
-                    spins += 1
-                    if spins > 10 * n:
-                        raise RuntimeError("deadlock: all live threads blocked")
-            trace.append((tid, self.at[tid]))
-            self.sem[tid].release()
-            self.arrived.acquire()
+                seg, tid, k = None, next(j for j in range(n) if not self.done[j]), None
+            self.grant(tid, k)
+            if seg is not None and k is not None:
+                seg[1] = 0 if self.done[tid] else self.budget[tid]
+            if not self.done[tid] and self.blocked[tid]:
+                # it waits for a lock another thread holds: another live thread takes one step (a waiting one retries), then we look again
+                progressed = False
+                for j in range(n):
+                    if j != tid and not self.done[j]:
+                        before = len(self.trace)
+                        self.grant(j, 1)
+                        if len(self.trace) > before or self.done[j]:
+                            progressed = True
+                            break
+                if seg is not None and seg[1] is not None and seg[1] > 0:
+                    seg[1] -= 1                  # the segment's time passes while its thread waits
+                spins = 0 if progressed else spins + 1
+                if spins > 10 * n:
+                    raise RuntimeError("deadlock: all live threads blocked")
         for t in ths:
             t.join()
-        return res, trace
+        return res, self.trace
